@@ -29,6 +29,7 @@ struct RBlock {
     std::vector<std::pair<std::string, uint64_t>> aecs;
     size_t tbl[9] = {0, 0, 0, 0, 0, 0, 0, 0, 0};
     std::vector<std::string> unreachable;  // "table[index]"
+    std::vector<std::string> duplicates;   // "table[i]==table[j]" (legal in a file, but the exporter must never produce them)
     // member presence (C04)
     std::vector<uint32_t> qr_keys;     // bit k for keys 0..12, bits 13,14,15 for -1,-2,-3
     std::vector<uint32_t> qr_qe, qr_re, qr_rpd; // member masks of sub-maps per QR (0 if absent)
@@ -408,6 +409,19 @@ public:
                 std::string s; for (auto& kv : m) if (!kv.second.empty()) { s += kv.second; s += ";"; }
                 b.mms.push_back(s);
             }
+        }
+        { // duplicate detection on canonical entry strings
+            std::vector<std::vector<std::string>> can(9);
+            for (auto& x : ip) can[0].push_back(hex(x));
+            for (auto& c : cts) can[1].push_back(std::to_string(c.type) + "/" + std::to_string(c.cls));
+            for (auto& x : names) can[2].push_back(hex(x));
+            for (auto& g : sigs) { std::string c; for (auto& kv : g.m) c += std::to_string(kv.first) + "=" + std::to_string(kv.second) + ";"; can[3].push_back(c); }
+            for (auto& l : qlists) { std::string c; for (auto i : l) c += std::to_string(i) + ","; can[4].push_back(c); }
+            for (auto& q : qs) can[5].push_back(std::to_string(q.name) + "/" + std::to_string(q.ct));
+            for (auto& l : rrlists) { std::string c; for (auto i : l) c += std::to_string(i) + ","; can[6].push_back(c); }
+            for (auto& r : rrs) can[7].push_back(std::to_string(r.name) + "/" + std::to_string(r.ct) + "/" + (r.has_ttl ? std::to_string(r.ttl) : "-") + "/" + (r.has_rdata ? std::to_string(r.rdata) : "-"));
+            for (auto& d : mmds) { std::string c = (d.has_ip ? std::to_string(d.ip) : "-") + "/"; for (auto& kv : d.m) c += std::to_string(kv.first) + "=" + std::to_string(kv.second) + ";"; c += d.has_payload ? "p" + hex(d.payload) : "-"; can[8].push_back(c); }
+            for (int t = 0; t < 9; t++) { std::map<std::string, size_t> seen; for (size_t i = 0; i < can[t].size(); i++) { auto it = seen.find(can[t][i]); if (it != seen.end()) b.duplicates.push_back(std::string(tn[t]) + "[" + std::to_string(it->second) + "]==" + tn[t] + "[" + std::to_string(i) + "]"); else seen[can[t][i]] = i; } }
         }
         // transitive reachability for entries referenced only through other table entries is
         // already marked by the *_str walkers; anything left unmarked is unreachable
